@@ -27,6 +27,7 @@ func NewSchemaCache() *SchemaCache {
 
 // Schema returns the J5 schema for the given message descriptor.
 func (sc *SchemaCache) Schema(src protoreflect.MessageDescriptor) (RootSchema, error) {
+	verifhook.At("schema.enter")
 	sc.mu.Lock()
 	defer sc.mu.Unlock()
 	return sc.schemaLocked(src)
@@ -37,6 +38,7 @@ func (sc *SchemaCache) Schema(src protoreflect.MessageDescriptor) (RootSchema, e
 func (sc *SchemaCache) schemaLocked(src protoreflect.MessageDescriptor) (RootSchema, error) {
 	packageName, nameInPackage := splitDescriptorName(src)
 	schemaPackage := sc.referencePackage(packageName)
+	verifhook.At("cache.lookup")
 	if built, ok := schemaPackage.Schemas[nameInPackage]; ok {
 		if built.To == nil {
 			// When building from reflection, the 'to' should be linked by the
@@ -50,6 +52,7 @@ func (sc *SchemaCache) schemaLocked(src protoreflect.MessageDescriptor) (RootSch
 		Package: schemaPackage,
 		Schema:  nameInPackage,
 	}
+	verifhook.At("cache.insert")
 	schemaPackage.Schemas[nameInPackage] = placeholder
 
 	msgOptions := proto.GetExtension(src.Options(), ext_j5pb.E_Message).(*ext_j5pb.MessageOptions)
@@ -60,6 +63,7 @@ func (sc *SchemaCache) schemaLocked(src protoreflect.MessageDescriptor) (RootSch
 	} else {
 		placeholder.To, err = schemaPackage.buildObjectSchema(src, msgOptions.GetObject())
 	}
+	verifhook.At("cache.linked")
 	if err != nil {
 		return nil, err
 	}
@@ -72,6 +76,7 @@ func (sc *SchemaCache) schemaLocked(src protoreflect.MessageDescriptor) (RootSch
 // refTo is called while building, with sc.mu held.
 func (sc *SchemaCache) refTo(pkg, schema string) (*RefSchema, bool) {
 	refPackage := sc.referencePackage(pkg)
+	verifhook.At("refto.lookup")
 	if existing, ok := refPackage.Schemas[schema]; ok {
 		return existing, true
 	}
@@ -80,6 +85,7 @@ func (sc *SchemaCache) refTo(pkg, schema string) (*RefSchema, bool) {
 		Package: refPackage,
 		Schema:  schema,
 	}
+	verifhook.At("refto.insert")
 	refPackage.Schemas[schema] = refSchema
 
 	return refSchema, false
